@@ -67,6 +67,15 @@ impl RespParser {
             ]))));
         }
         
+        // Fewer than four bytes that may still become a raw "PING": wait for the rest, so the
+        // result does not depend on how the bytes were split into reads
+        {
+            let rest = &self.buffer[self.position..];
+            if rest.len() < 4 && b"PING".starts_with(rest) {
+                return Ok(None);
+            }
+        }
+        
         // Handle normal RESP protocol
         match parse_frame(&self.buffer[self.position..])? {
             Some((frame, consumed)) => {
